@@ -34,6 +34,7 @@ func init() {
 			{ID: "R17.1", Template: "T-EXHAUST", Text: "every mutating method of sys.FS / sys.File is declared on the wrapper itself (not promoted from the embedded value) and its body performs no call through the embedded value; every interface method is classified", Min: 25},
 			{ID: "R17.2", Template: "T-CONSULT", Text: "for every flag value, an open delegated to the wrapped FS has access mode ∉ {O_WRONLY,O_RDWR} and neither O_CREAT nor O_TRUNC", Min: 3},
 			{ID: "R17.3", Template: "T-CAP", Text: "the wrapper cannot be bypassed: registration site wraps, OpenFile returns only the file wrapper, nobody else reads the embedded fields or asserts to the wrapper types; the fs.FS adapter reaches no mutating os/syscall API", Min: 4},
+			{ID: "R17.5", Template: "T-OWN", Text: "the mount list of an FSConfig that was already handed out is never written: every write to FSConfig-owned memory (fs, guestPaths, guestPathToFS) goes to memory fresh in that activation (C19's analysis restricted to FSConfig)", Min: 3},
 			{ID: "R17.4", Template: "T-CAP", Text: "WASI file functions reach mutating os/syscall functions only through invokes on the mounted sys.FS / sys.File / fsapi.File interfaces", Min: 1},
 		},
 		Run: runC17,
@@ -46,6 +47,7 @@ func init() {
 			{Name: "openfile-returns-raw-file", File: "internal/sysfs/readfs.go", Old: "return &readFile{f}, 0", New: "if flag&experimentalsys.O_DIRECTORY != 0 {\n\t\treturn f, 0\n\t}\n\treturn &readFile{f}, 0", Rule: "R17.3", Substr: "OpenFile-result"},
 			{Name: "mount-unwrapped", File: "fsconfig.go", Old: "return c.WithSysFSMount(&sysfs.ReadFS{FS: sysfs.DirFS(dir)}, guestPath)", New: "ro := &sysfs.ReadFS{FS: sysfs.DirFS(dir)}\n\treturn c.WithSysFSMount(ro.FS, guestPath)", Rule: "R17.3", Substr: "registration"},
 			{Name: "wasi-unwraps", File: "imports/wasi_snapshot_preview1/fs.go", Old: "symlinkFollow := flags&wasip1.LOOKUP_SYMLINK_FOLLOW != 0\n\tif symlinkFollow {", New: "symlinkFollow := flags&wasip1.LOOKUP_SYMLINK_FOLLOW != 0\n\tif ro, ok := preopen.(*sysfs.ReadFS); ok && symlinkFollow {\n\t\treturn ro.FS.Utimens(pathName, atim, mtim)\n\t}\n\tif symlinkFollow {", Rule: "R17.3", Substr: "bypass", Old2: "import (\n", New2: "import (\n\t\"github.com/tetratelabs/wazero/internal/sysfs\"\n"},
+			{Name: "file-wrapper-unwrap-method", File: "internal/sysfs/readfs.go", Old: "func (r *readFile) writeErr() experimentalsys.Errno {", New: "func (r *readFile) Unwrap() experimentalsys.File {\n\treturn r.File\n}\n\nfunc (r *readFile) writeErr() experimentalsys.Errno {", Rule: "R17.3", Substr: "bypass"},
 			{Name: "adapter-removes", File: "internal/sysfs/adapter.go", Old: "func (a *AdaptFS) Unlink(string) experimentalsys.Errno {\n\treturn experimentalsys.ENOSYS", New: "func (a *AdaptFS) Unlink(p string) experimentalsys.Errno {\n\tif err := os.Remove(p); err == nil {\n\t\treturn 0\n\t}\n\treturn experimentalsys.ENOSYS", Rule: "R17.3", Substr: "adapter", Old2: "import (\n", New2: "import (\n\t\"os\"\n"},
 		},
 		Configs: []core.BuildCfg{{GOOS: "windows", GOARCH: "amd64"}, {GOOS: "darwin", GOARCH: "arm64"}, {GOOS: "freebsd", GOARCH: "amd64"}, {GOOS: "linux", GOARCH: "arm64"}, {GOOS: "linux", GOARCH: "riscv64"}},
@@ -213,6 +215,25 @@ func runC17(c *core.Ctx) {
 
 	// ---- R17.4 WASI reaches host mutation only through the mount
 	checkWasiThroughMount(c)
+
+	// ---- R17.5 the mount list of a published FSConfig is never rewritten (a read-only mount cannot be swapped
+	// for a writable one behind the back of a configuration that was already handed out)
+	fsSeeds := map[*types.Named]bool{}
+	for n := range configTypes(c) {
+		if types.Implements(types.NewPointer(n), fsCfgIface) {
+			fsSeeds[n] = true
+		}
+	}
+	agg, keys, owned, _ := ownedWriteAnalysis(c, fsSeeds)
+	for _, k := range keys {
+		g := agg[k]
+		if len(g.bad) == 0 {
+			c.Discharge("R17.5", k, g.fn.Pos(), fmt.Sprintf("%d write site(s) on FSConfig-owned memory, all on fresh unpublished memory", g.sites))
+		} else {
+			c.Violate("R17.5", k, g.pos[0].Pos, strings.Join(g.bad, "; "))
+		}
+	}
+	c.Count("fsconfig_owned_write_sites", owned)
 }
 
 func flattenPhi(v ssa.Value) []ssa.Value {
@@ -608,6 +629,39 @@ func checkNoBypass(c *core.Ctx, wrapper, fileWrapper *types.Named, embFS, embFil
 					if (n == wrapper && x.Field == embFS) || (n == fileWrapper && x.Field == embFile) {
 						sites++
 						if isWrapperMethod(fn) {
+							// inside the wrappers the wrapped value may only be the receiver of a method call:
+							// returning, storing, passing or converting it hands the unguarded value out.
+							for _, u := range *x.Referrers() {
+								ld, ok := u.(*ssa.UnOp)
+								if !ok {
+									if st, isStore := u.(*ssa.Store); isStore && st.Addr == x {
+										if _, fresh := x.X.(*ssa.Alloc); !fresh {
+											bad = append(bad, fmt.Sprintf("%s rewrites the wrapped value at %s", core.SSAFuncName(fn), c.Pos(u.Pos())))
+										}
+									}
+									continue
+								}
+								for _, uu := range *ld.Referrers() {
+									switch y := uu.(type) {
+									case ssa.CallInstruction:
+										if y.Common().IsInvoke() && y.Common().Value == ld {
+											argEscape := false
+											for _, a := range y.Common().Args {
+												if a == ld {
+													argEscape = true
+												}
+											}
+											if !argEscape {
+												continue
+											}
+										}
+										bad = append(bad, fmt.Sprintf("%s passes the wrapped value on at %s", core.SSAFuncName(fn), c.Pos(uu.Pos())))
+									case *ssa.DebugRef:
+									default:
+										bad = append(bad, fmt.Sprintf("%s lets the wrapped value escape (%T) at %s", core.SSAFuncName(fn), uu, c.Pos(uu.Pos())))
+									}
+								}
+							}
 							continue
 						}
 						for _, u := range *x.Referrers() {
